@@ -3,7 +3,7 @@ package main
 func init() {
 	harnesses = append(harnesses, &Harness{Name: "collfs", Pkg: "sdk/go/arvados", Instr: []InstrSpec{{Pkg: "sdk/go/arvados", Files: []string{"fs_*", "throttle.go", "contextgroup.go"}, Rules: "R1,R2,R3,R4,R5"}}})
 	props = append(props, &Prop{ID: "C08", Harness: "collfs", Level: "exploration",
-		QuickRuns: 12000, QuickChunk: 300, QuickWallS: 60, ThoroughRuns: 2000000, ThoroughChunk: 2000, ThoroughWallS: 600, MaxSteps: 200000,
+		QuickRuns: 12000, QuickChunk: 300, QuickWallS: 60, ThoroughRuns: 2000000, ThoroughChunk: 2000, ThoroughWallS: 600, MaxSteps: 200000, RunWallS: 600,
 		Rule:         "C08: per run a block limit (1-64 bytes), writer throttle, optional initial manifest, name set and an operation sequence (geometric length) are drawn; one worker applies it to the real collection filesystem and to an in-memory model in lockstep while background Keep writes complete in scheduler-chosen order, possibly many operations later.",
 		Real:         []string{"sdk/go/arvados collection filesystem (fs_base, fs_collection, fs_filehandle, throttle, contextgroup), instrumented: every lock acquisition and goroutine spawn is a scheduler decision"},
 		Stub:         []string{"Keep (content-addressed map behind PutB/ReadAt/LocalLocator, every call a parked point)", "API client (records collection updates from Sync)"},
@@ -13,7 +13,7 @@ func init() {
 		Technique:    "deterministic simulation: instrumented collection filesystem under a seeded lock-level scheduler with controllable Keep-write completion; refinement against an executable reference model",
 		DesignRef:    "5.8"})
 	props = append(props, &Prop{ID: "C09", Harness: "collfs", Level: "exploration",
-		QuickRuns: 10000, QuickChunk: 250, QuickWallS: 60, ThoroughRuns: 2000000, ThoroughChunk: 2000, ThoroughWallS: 600, MaxSteps: 200000,
+		QuickRuns: 10000, QuickChunk: 250, QuickWallS: 60, ThoroughRuns: 2000000, ThoroughChunk: 2000, ThoroughWallS: 600, MaxSteps: 200000, RunWallS: 600,
 		Rule:         "C09: C08's workloads (half of the runs with names containing space, colon, backslash, backslash-digit sequences, control and non-ASCII bytes) plus a Keep write failure plan drawn per run: none / the k-th write / rate p / only background writes / only writes issued by a save; completion order and delay of writes chosen by the scheduler. Every save is judged; the run ends with one save under faults and one after faults stopped.",
 		Real:         []string{"sdk/go/arvados collection filesystem incl. marshalManifest, flush, commitBlock, pruneMemSegments, loadManifest (instrumented)"},
 		Stub:         []string{"Keep (content-addressed map; failure decided at the instant the write is granted)", "API client (records the manifest sent by Sync)"},
@@ -23,7 +23,7 @@ func init() {
 		Technique:    "deterministic simulation with injected Keep write failures; oracle = spec-derived reference parser + executable filesystem model + block provenance log",
 		DesignRef:    "5.9"})
 	props = append(props, &Prop{ID: "C13", Harness: "collfs", Level: "exploration",
-		QuickRuns: 6000, QuickChunk: 150, QuickWallS: 60, ThoroughRuns: 1000000, ThoroughChunk: 1000, ThoroughWallS: 600, MaxSteps: 300000,
+		QuickRuns: 6000, QuickChunk: 150, QuickWallS: 60, ThoroughRuns: 1000000, ThoroughChunk: 1000, ThoroughWallS: 600, MaxSteps: 300000, RunWallS: 600,
 		Rule:         "C13: 2-8 worker tasks (own files, shared directories), 1-2 tasks calling Flush/MarshalManifest/Sync and 0-2 tasks reading other workers' files, block limit 1-16 bytes so that almost every write starts a background flush; EVERY lock acquisition inside the filesystem, every goroutine spawn and every Keep write/read is a scheduler decision; Keep writes fail at a drawn rate and complete in scheduler-chosen order.",
 		Real:         []string{"sdk/go/arvados collection filesystem (instrumented: sim locks incl. Go's RWMutex writer-preference protocol, tasks, sorted map ranges)"},
 		Stub:         []string{"Keep", "API client"},
